@@ -82,6 +82,11 @@ for _f in ("['s']", "['t']", "['s', 't']", "Type.string"):
     for _rx in ("'^A'", "'b a'", "'B A$'", "'(?i)b a'", "'A|z'"):
         HELPER_OPTS.append("field_regex(r, %s, %s)" % (_f, _rx))
 
+# case mapping beyond ASCII: lower()/upper() are str.lower()/str.upper(), not casefold
+HELPER_OPTS += ["lower('Stra\u00dfe') == 'stra\u00dfe'", "lower('Stra\u00dfe') == 'strasse'", "upper('stra\u00dfe') == 'STRASSE'", "lower('\u03a3\u0391\u03a3') == '\u03c3\u03b1\u03c2'",
+                "lower('\u0130') == 'i\u0307'", "lower('\ufb01') == '\ufb01'", "field_equals(r, ['s'], ['\u00df'])", "field_contains(r, ['s', 't'], ['STRA\u00dfE'])",
+                "'\u00df' in lower('GRO\u00dfE')", "lower(r.s) == lower('A')", "upper('\u0131') == 'I'"]
+
 # membership in literal lists / tuples of 9 and more constants (a length class of its own for an implementation)
 LONG_LITERALS = [
     "r.ip in ['9.9.9.1', '9.9.9.2', '9.9.9.3', '9.9.9.4', '9.9.9.5', '9.9.9.6', '9.9.9.7', '9.9.9.8', '1.2.3.4']",
